@@ -2,6 +2,7 @@
 //! `<out>/cases.txt` (input lines for the Lean model driver), `<out>/impl.txt` (what the
 //! implementation did, same line protocol as the driver's answers) and `<out>/tags.txt`.
 mod enc;
+mod fmtop;
 mod gen;
 mod mock;
 mod parseop;
@@ -40,6 +41,18 @@ impl Out {
         writeln!(self.expect, "-").unwrap();
         self.n += 1;
     }
+    /// a `fmt` case; the harness's own metamorphic oracle verdict goes to expect.txt as `!msg`
+    fn fmt(&mut self, text: &str, tag: &str) {
+        writeln!(self.cases, "{}", fmtop::encode_fmt_case(text)).unwrap();
+        let (a, oracle) = fmtop::run_fmt(text);
+        writeln!(self.imp, "{}", a).unwrap();
+        writeln!(self.tags, "{}", tag.replace('\n', " ")).unwrap();
+        match oracle {
+            None => writeln!(self.expect, "-").unwrap(),
+            Some(m) => writeln!(self.expect, "!{}", m).unwrap(),
+        }
+        self.n += 1;
+    }
     /// a `parse` case; `expect` = what the author of the text intended ("-" = no expectation)
     fn parse(&mut self, strict: bool, text: &str, tag: &str, expect: &str) {
         writeln!(self.cases, "{}", parseop::encode_parse_case(strict, text)).unwrap();
@@ -53,6 +66,15 @@ impl Out {
 fn s(v: &[&str]) -> Vec<String> {
     v.iter().map(|x| x.to_string()).collect()
 }
+
+const FIXTURES: &[&str] = &[
+    "slt/basic.slt", "slt/condition.slt", "slt/connection/counter.slt", "slt/file_level_sort_mode.slt",
+    "slt/include/include_1.slt", "slt/retry.slt", "slt/rowsort.slt", "slt/valuesort.slt",
+    "no_run/query_retry.slt", "no_run/statement_retry.slt", "no_run/system_retry.slt",
+    "custom_type/custom_type.slt", "substitution/basic.slt", "system_command/system_command.slt",
+    "system_command/system_command_fail.slt", "system_command/system_command_fail_2.slt",
+    "test_dir_escape/test_dir_escape.slt", "validator/validator.slt",
+];
 
 fn gen_profile(profile: &str, seed: u64, n: usize, thorough: bool, out: &mut Out) {
     let mut r = Rng::new(seed);
@@ -203,6 +225,31 @@ fn gen_profile(profile: &str, seed: u64, n: usize, thorough: bool, out: &mut Out
                 out.parse(false, &text, "c03 layout", &exp);
             }
         }
+        "c05" => {
+            // rendered valid scripts under random layouts, all repository fixtures, duration sweep
+            for f in FIXTURES {
+                if let Ok(t) = std::fs::read_to_string(format!("/repo/tests/{}", f)) {
+                    out.fmt(&t, &format!("c05 fixture {}", f));
+                }
+            }
+            for (i, d) in parseop::duration_sweep().iter().enumerate() {
+                let t = if i % 2 == 0 {
+                    format!("sleep {}\n", d)
+                } else {
+                    format!("statement ok retry 3 backoff {}\nselect 1\n\nsystem ok retry 2 backoff {}\ntrue\n", d, d)
+                };
+                out.fmt(&t, "c05 duration");
+            }
+            for i in 0..n {
+                if i % 4 == 3 {
+                    let (_, t) = parseop::gen_c04_mutate(&mut r);
+                    out.fmt(&t, "c05 mutated");
+                } else {
+                    let (t, _) = parseop::gen_c03(&mut r);
+                    out.fmt(&t, "c05 layout");
+                }
+            }
+        }
         "c04enum" => {
             // every header line of <= 3 (quick) / <= 4 (thorough) tokens over the vocabulary,
             // each followed by one SQL line; 5 tokens over the reduced vocabulary (thorough)
@@ -276,6 +323,7 @@ fn replay_line(line: &str) -> String {
     match t[0] {
         "script" => decode_script(&t).run(),
         "parse" => parseop::run_parse(t[1] == "1", &enc::unhx(t[2])),
+        "fmt" => fmtop::run_fmt(&enc::unhx(t[1])).0,
         _ => "unknown-op".into(),
     }
 }
